@@ -163,6 +163,29 @@ def run_hist(ctx, exe, files, n, prof, stats):
     return hs
 
 
+def hash_site_report(ctx):
+    """name the hash-table iterations that the translator found and Model/HashSites.v does not classify"""
+    try:
+        ext = open(os.path.join(vlib.COQ, "Extracted", "HashSites.v")).read()
+        mod = vlib.strip_coq_comments(open(os.path.join(vlib.COQ, "Model", "HashSites.v")).read())
+    except OSError:
+        return
+    trip = r'\("([^"]+)", "([^"]+)", "([^"]+)"\)'
+    from collections import Counter
+    found = Counter((f, n) for f, g, n in re.findall(trip, ext.split("serialized_hash_fields")[0]))
+    known = Counter((f, n) for f, g, n in re.findall(trip, mod))
+    ser = re.findall(r'\("([^"]+)", "([^"]+)"\)', ext.split("serialized_hash_fields")[1])
+    ctx.cov["hash_iteration_sites"] = {"found_by_translator": sum(found.values()), "classified_entries": sum(known.values()),
+                                       "classes": "Indexed / KeyedMerge / SetBuild / PerEntryUpdate / Sorted / Diagnostics / NotBytecode / NotHash (Model/HashSites.v)"}
+    new = sorted(k for k in found if found[k] > known.get(k, 0))
+    if new:
+        ctx.broken.append("new hash-table iteration on the compile path, not classified in Model/HashSites.v "
+                          "(read it: if its order can reach the output it is a determinism defect): " +
+                          "; ".join(f"{f} over `{n}` ({found[(f, n)]} found, {known.get((f, n), 0)} classified)" for f, n in new[:6]))
+    if ser:
+        ctx.broken.append("serialized struct owns a hash table (its bytes follow the hash seed): " + "; ".join(f"{f}: {x}" for f, x in ser[:4]))
+
+
 def run_det_cli(ctx, root, stats, quick):
     """the real `aelys-cli compile` on small projects whose aelys.toml has several [module.*] entries and
     (when the probe cdylib builds) several bundled native modules: N runs, bytes must be identical"""
@@ -242,7 +265,8 @@ def run(ctx):
     ]
     if getattr(ctx, "replay_file", None):
         return replay(ctx)
-    proved = ctx.prove("C16", extracted=["PipelineStages"])
+    proved = ctx.prove("C16", extracted=["PipelineStages", "HashSites"])
+    hash_site_report(ctx)
     if ctx.tier == "thorough" and proved:
         ctx.coqchk("C16")
     ok, out = vlib.coq_make(["Base/CaseCheck.vo", "Model/PipelineCache.vo", "Model/GlobalLayoutOrder.vo"])
@@ -329,10 +353,14 @@ def run(ctx):
             shutil.rmtree(d, ignore_errors=True)
             return
         nd_ok = nd_err = 0
+        featc = ctx.cov.setdefault("det_feature_counts", {})
         for l in out.splitlines():
             f = l.split("\t")
             if f[0] != "D":
                 continue
+            if f[3] == "OK" and f[2] == "0":
+                for ft in set(f[9].split(",")):
+                    featc[ft] = featc.get(ft, 0) + 1
             total_eval += int(f[5])
             status, ndist = f[3], int(f[4])
             if status == "OK":
@@ -358,6 +386,16 @@ def run(ctx):
                 else:
                     ctx.violation("determinism:compile-%s:O%s" % (status.lower(), f[2]), "the compile path of the CLI %s on this file" % status,
                                   {"profile": prof, "opt": int(f[2]), "file": path, "source": text, "modules": mods})
+        # every hash table whose order could reach the output must be exercised with >= 2 entries by compiled files
+        need = {"many-globals": "global_indices -> build_global_layout", "forward-globals": "child global_indices merged into the parent (finalize_*_function)",
+                "lambda-forward-globals": "finalize_lambda / compile_typed_lambda_*", "nested-interned-strings": "Heap::merge intern_table",
+                "needs-module": "loader exports / known_globals / symbol_origins", "needs-selected": "loader exports (selected symbols)",
+                "needs-alias": "loader exports (alias)", "user-module": "compile_module exports", "mutual-recursion": "inliner call graph (functions, calls)",
+                "closure": "sema captures / scopes"}
+        starved = [k for k in need if featc.get(k, 0) < 2]
+        ctx.cov["det_tables_exercised"] = {k: {"table": v, "files_compiled": featc.get(k, 0)} for k, v in need.items()}
+        if starved:
+            ctx.broken.append("determinism generator starved: fewer than 2 compiled files exercise " + ", ".join(starved))
         ctx.cov["det_files_compiled_ok"] = nd_ok
         ctx.cov["det_files_rejected"] = nd_err
         shutil.rmtree(d, ignore_errors=True)
